@@ -1017,6 +1017,36 @@ Proof.
 Qed.
 Print Assumptions C03_pacman_overlap_loop_vitals.
 
+(* the baddies' turn (five scripted drift moves and teleports) never touches pacman's record, in either
+   version of the teleport, as long as pacman is not itself listed as a baddie; hence in a step that
+   counted, pacman's record at the end is the one it had after its own move, teleport and meal *)
+Theorem C03_pacman_baddies_turn_frame : forall f cf moves k g, pac_not_baddie cf ->
+  agent (tgrid (baddies_loop f cf k moves g)) (pc_pac cf) = agent g (pc_pac cf).
+Proof. intros f cf moves k g. apply baddies_loop_frame. Qed.
+Print Assumptions C03_pacman_baddies_turn_frame.
+
+Theorem C03_pacman_counted_pacman_frame : forall f cf st acts,
+  pac_not_baddie cf ->
+  ps_bad st = false -> ps_bad (pm_step_gen f cf st acts) = false ->
+  ps_count (pm_step_gen f cf st acts) = ps_count st + 1 ->
+  exists ca b g1 g2 p g3 r3,
+    assoc acts (pc_pac cf) = Some ca /\
+    move_drift (ps_grid st) (pc_pac cf) ca = MOk b g1 /\
+    teleport f g1 (pc_pac cf) = TOk g2 /\ pac_cell cf g2 = Some p /\
+    overlap_loop cf true (cell_get (g_cells g2) p) g2
+      (radd (ps_rew st) (pc_pac cf) (if b then pc_entropy cf else pc_bad_move cf)) = LGo g3 r3 /\
+    agent (ps_grid (pm_step_gen f cf st acts)) (pc_pac cf) = agent g2 (pc_pac cf).
+Proof. exact pm_step_counted_pacman_frame. Qed.
+Print Assumptions C03_pacman_counted_pacman_frame.
+
+(* the hypothesis holds of the packaged board's configuration *)
+Example C03_pacman_not_baddie_nonvacuous : pac_not_baddie px_cf.
+Proof.
+  intros k b H. unfold px_cf in H |- *. cbn [pc_bad pc_pac] in *.
+  do 5 (destruct k as [|k]; [cbn in H; inversion H; discriminate|]).
+  destruct k; cbn in H; discriminate.
+Qed.
+
 (* the tree as found (findings/C03-pacman-blocked-teleport): the teleport ignores the result of Grid.place.
    A wall on the tunnel end (9,18), pacman walks from (9,1) to (9,0): removed from the grid, placed nowhere,
    still active (clause 303 of the invariant test on the snapshot), the next step raises; the repaired step
